@@ -182,6 +182,57 @@ def rejected_applicant_probe(r, ops, tags):
         reserved_probe(r, ops, tags, T=T, callers=["u0", first, r.choice(["ca1", "ca2"]), first, second])
 
 
+ADMIN_OPS = [
+    "appchain FreezeAppchain s:c2 s:reason",
+    "appchain ActivateAppchain s:c2 s:reason",
+    "service FreezeService s:c2:s1 s:reason",
+    "role RegisterRole s:@g1 s:governanceAdmin s:~ s:reason",
+    "role FreezeRole s:@adm2 s:reason",
+    "strategy UpdateProposalStrategy s:appchain_mgr s:SimpleMajority s:a\\_==\\_t s:reason",
+    "node RegisterNode s:@n9 s:nvpNode s:0 u:0 s:n9 s:~ s:reason",
+]
+
+
+def former_admin_probe(r, ops, tags):
+    """an account that holds a governance-admin role record without being an available admin: an administrator who was frozen
+    or logged out by an approved proposal, or a candidate whose registration was voted down (or is still pending).
+    Operations reserved to governance admins are then called with the same arguments by an outsider, by that account and
+    finally by a real administrator; a vote of that account on an open proposal is tried too"""
+    kind = r.choice(["frozen", "frozen", "logged-out", "rejected-candidate", "pending-candidate"])
+    if kind in ("frozen", "logged-out"):
+        x = "adm3"
+        call = "FreezeRole" if kind == "frozen" else "LogoutRole"
+        ops.append(f"block bvm adm1 role {call} s:@{x} s:reason")
+        ops.append("q prop @adm1-0")
+        for v in ("adm0", "adm1", "adm2"):
+            ops.append(f"block bvm {v} gov Vote s:@adm1-0 s:approve s:r")
+        ops.append("q prop @adm1-0")
+    else:
+        x = "g2"
+        ops.append(f"block xfer adm0 {x} 100000000000")
+        ops.append(f"block bvm adm1 role RegisterRole s:@{x} s:governanceAdmin s:~ s:reason")
+        ops.append("q prop @adm1-0")
+        if kind == "rejected-candidate":
+            for v in ("adm0", "adm1", "adm2"):
+                ops.append(f"block bvm {v} gov Vote s:@adm1-0 s:reject s:r")
+            ops.append("q prop @adm1-0")
+    ops.append(f"q obj role @{x}")
+    # an open proposal to vote on
+    ops.append("block bvm adm2 appchain FreezeAppchain s:c4 s:reason")
+    ops.append("q prop @adm2-0")
+    for who in ("u0", x):
+        ops.append("q dump")
+        ops.append(f"block bvm {who} gov Vote s:@adm2-0 s:approve s:r")
+        ops.append("q dump")
+    for call in r.sample(ADMIN_OPS, 3):
+        for who in ("u0", x, "adm1"):
+            ops.append("q dump")
+            ops.append(f"block bvm {who} {call}")
+            ops.append("q dump")
+    tags.add(f"former-admin:{kind}")
+    tags.add(f"nonadmin:{x}")
+
+
 def gen_c17(rng, n, tier):
     import random as _r
     methods = [m for m in load_methods() if m[4] == ["*boltvm.Response"] or m[1] in STUB]
@@ -236,6 +287,8 @@ def gen_c17(rng, n, tier):
             reserved_probe(r, ops, tags)
         elif k1 < 0.62:
             rejected_applicant_probe(r, ops, tags)
+        elif k1 < 0.74:
+            former_admin_probe(r, ops, tags)
         ops += ["q ic c1:s1", "q ic c2:s1", "q status 1356:c1:s1-1356:c2:s1-1", "q status 1356:c2:s1-1356:c1:s1-1"]
         hs.append(History(ops, tags=tags))
     return hs
@@ -268,6 +321,8 @@ def mon_c17(h, obs):
     reserved = {(c, m): pos for (c, m, _ins, pos) in load_reserved()}
     outsider_class = {}      # (contract, method, args) -> error class an outsider got for exactly this call
     owners = dict(CHAIN_ADMIN)
+    nonadmins = {t[9:] for t in h.tags if t.startswith("nonadmin:")}
+    outsider5 = {}
     for t in h.tags:
         if t.startswith("owner:"):
             ch, _, who = t[6:].partition("=")
@@ -321,6 +376,17 @@ def mon_c17(h, obs):
                 elif key in outsider_class and rc.ret != outsider_class[key]:
                     hits.append(Hit(f"C17/reserved-operation-passed-permission-check/{c}.{m}",
                                     f"{c}.{m} about chain {chain}: {tx.signer} ({cls}) was refused with {rc.ret}, an outsider with {outsider_class[key]}: the caller got past the owner check", detail=b.op))
+        # R5: an operation reserved to governance admins (or a vote) called by an account that holds an admin role record
+        # without being an available admin fails — and in the same way as for an outsider
+        if tx.signer in nonadmins or cls == "outsider":
+            key5 = (c, m, tuple(tx.args))
+            if cls == "outsider" and not rc.ok:
+                outsider5[key5] = rc.ret
+            elif tx.signer in nonadmins and key5 in outsider5:
+                if rc.ok:
+                    hits.append(Hit(f"C17/admin-operation-open-to-unavailable-admin/{c}.{m}", f"{c}.{m} called by {tx.signer}, who is no available governance admin, succeeded; an outsider is refused with {outsider5[key5]}", detail=b.op))
+                elif rc.ret != outsider5[key5]:
+                    hits.append(Hit(f"C17/admin-operation-passed-admin-check/{c}.{m}", f"{c}.{m}: {tx.signer}, who is no available governance admin, was refused with {rc.ret}, an outsider with {outsider5[key5]}: the caller got past the admin check", detail=b.op))
         # a failed call changes nothing (C07 restated for this traffic)
         if not rc.ok and changed:
             hits.append(Hit(f"C17/failed-call-changed-state/{c}.{m}", f"failed {c}.{m} changed {changed[:4]}", detail=b.op))
